@@ -373,6 +373,8 @@ func main() {
 	st.Extra["model_cases"] = modelled
 	sh.Flush()
 	mempoolCases(run, rng, st, &id)
+	historyCases(run, rng, st, &id)
+	liveRoundTrip(run, rng, st, &id)
 	st.Traces = st.Evals
 	st.Write(run.Out)
 }
